@@ -205,9 +205,19 @@ theorem hinv_processCommit (c : Cl) (e : Ev) (b : Body) (sw : List Nat) (hk : e.
   unfold processCommit
   split
   · exact hinv_recordFailure c e.n true (some c.g.recEpoch) h
-  · apply hinv_setRec
-    exact hinv_mgrCreate_then c e _ h (secOK_syncRec _ (secOK_ensure _ (secOK_merge _ _ _ h.sec)))
-      (pendOK_of_eq _ _ rfl (pendOK_ensure _ (pendOK_merge _ _ _ h.pend))) (epoch_merge_lt _ _ _ b sw hk)
+  · split
+    · -- eviction: the commit is merged (the path moves on), nothing else is touched
+      apply hinv_setRec
+      have hp : (mergeCommit c.maxPast c.g e).path = c.g.path ++ [e.cipher] := by
+        unfold mergeCommit; rw [hk]
+      exact hinv_mgrCreate_then c e _ h
+        (secOK_mono (mergeCommit c.maxPast c.g e) _ rfl (List.prefix_refl _) (secOK_merge _ _ _ h.sec))
+        (pendOK_of_eq (mergeCommit c.maxPast c.g e) _ rfl (pendOK_merge _ _ _ h.pend))
+        (by show epochOf c.g.path < epochOf (mergeCommit c.maxPast c.g e).path
+            rw [hp]; simp only [epochOf, List.length_append, List.length_singleton]; omega)
+    · apply hinv_setRec
+      exact hinv_mgrCreate_then c e _ h (secOK_syncRec _ (secOK_ensure _ (secOK_merge _ _ _ h.sec)))
+        (pendOK_of_eq _ _ rfl (pendOK_ensure _ (pendOK_merge _ _ _ h.pend))) (epoch_merge_lt _ _ _ b sw hk)
 
 theorem hinv_wrongEpochCommit (retry : Cl → Option (Cl × Res)) (c : Cl) (e : Ev) (ee : Nat) (h : HInv c)
     (hretry : ∀ c1 r, HInv c1 → retry c1 = some r → HInv r.1) : HInv (wrongEpochCommit retry c e ee).1 := by
@@ -228,64 +238,66 @@ theorem hinv_step1 (retry : Cl → Option (Cl × Res)) (nx : Nat) (c : Cl) (e : 
   unfold step1
   split
   · exact hinv_recordFailure c e.n false none h
-  · simp only
-    split
-    · exact hinv_recordFailure (withSecret c) e.n true none hw
-    · split
-      · -- commit
-        rename_i b sw hk
-        split
-        · exact hinv_wrongEpochCommit retry _ e _ hw hretry
-        · split
+  · split
+    · exact hinv_recordFailure c e.n true none h
+    · simp only
+      split
+      · exact hinv_recordFailure (withSecret c) e.n true none hw
+      · split
+        · -- commit
+          rename_i b sw hk
+          split
+          · exact hinv_wrongEpochCommit retry _ e _ hw hretry
           · split
-            · rename_i p hp
-              apply hinv_setRec
-              -- OwnCommitPending: snapshot, then merge the pending commit (a commit event: `PendOK`)
-              obtain ⟨pb, psw, hpk⟩ := hw.pend p hp
-              have := hinv_mgrCreate_then (withSecret c) e
-                (syncRec (ensureSecret (mergeCommit (withSecret c).maxPast (withSecret c).g p))) hw
-                (secOK_syncRec _ (secOK_ensure _ (secOK_merge _ _ _ hw.sec)))
-                (pendOK_of_eq _ _ rfl (pendOK_ensure _ (pendOK_merge _ _ _ hw.pend))) (epoch_merge_lt _ _ _ pb psw hpk)
-              exact this
-            · exact hinv_ownMessage _ e hw
-          · split
-            · exact hinv_failUnprocessable _ e hw
-            · exact hinv_processCommit _ e _ _ hk
-                (hinv_g _ _ hw (secOK_mono (withSecret c).g _ rfl (List.prefix_refl _) hw.sec)
-                  (pendOK_of_eq (withSecret c).g _ rfl hw.pend) (Nat.le_refl _))
-      · -- leave
-        split
-        · exact hinv_failUnprocessable _ e hw
-        · split
-          · exact hinv_ownMessage _ e hw
-          · split
-            · exact hinv_failUnprocessable _ e hw
             · split
-              · apply hinv_setRec
-                apply hinv_g _ _ hw
-                · apply secOK_ensure
-                  exact secOK_mono (withSecret c).g _ rfl (List.prefix_refl _) hw.sec
-                · apply pendOK_ensure
-                  intro p hp
-                  simp only [Option.some.injEq] at hp
-                  subst hp
-                  exact ⟨_, _, rfl⟩
-                · rw [ensureSecret_path]; exact Nat.le_refl _
-              · apply hinv_setRec
-                exact hinv_g _ _ hw (secOK_mono (withSecret c).g _ rfl (List.prefix_refl _) hw.sec)
-                  (pendOK_of_eq (withSecret c).g _ rfl hw.pend) (Nat.le_refl _)
-      · -- app
-        split
-        · exact hinv_failUnprocessable _ e hw
-        · split
+              · rename_i p hp
+                apply hinv_setRec
+                -- OwnCommitPending: snapshot, then merge the pending commit (a commit event: `PendOK`)
+                obtain ⟨pb, psw, hpk⟩ := hw.pend p hp
+                have := hinv_mgrCreate_then (withSecret c) e
+                  (syncRec (ensureSecret (mergeCommit (withSecret c).maxPast (withSecret c).g p))) hw
+                  (secOK_syncRec _ (secOK_ensure _ (secOK_merge _ _ _ hw.sec)))
+                  (pendOK_of_eq _ _ rfl (pendOK_ensure _ (pendOK_merge _ _ _ hw.pend))) (epoch_merge_lt _ _ _ pb psw hpk)
+                exact this
+              · exact hinv_ownMessage _ e hw
+            · split
+              · exact hinv_failUnprocessable _ e hw
+              · exact hinv_processCommit _ e _ _ hk
+                  (hinv_g _ _ hw (secOK_mono (withSecret c).g _ rfl (List.prefix_refl _) hw.sec)
+                    (pendOK_of_eq (withSecret c).g _ rfl hw.pend) (Nat.le_refl _))
+        · -- leave
+          split
           · exact hinv_failUnprocessable _ e hw
           · split
             · exact hinv_ownMessage _ e hw
             · split
               · exact hinv_failUnprocessable _ e hw
-              · apply hinv_storeApp
-                exact hinv_g _ _ hw (secOK_mono (withSecret c).g _ rfl (List.prefix_refl _) hw.sec)
-                  (pendOK_of_eq (withSecret c).g _ rfl hw.pend) (Nat.le_refl _)
+              · split
+                · apply hinv_setRec
+                  apply hinv_g _ _ hw
+                  · apply secOK_ensure
+                    exact secOK_mono (withSecret c).g _ rfl (List.prefix_refl _) hw.sec
+                  · apply pendOK_ensure
+                    intro p hp
+                    simp only [Option.some.injEq] at hp
+                    subst hp
+                    exact ⟨_, _, rfl⟩
+                  · rw [ensureSecret_path]; exact Nat.le_refl _
+                · apply hinv_setRec
+                  exact hinv_g _ _ hw (secOK_mono (withSecret c).g _ rfl (List.prefix_refl _) hw.sec)
+                    (pendOK_of_eq (withSecret c).g _ rfl hw.pend) (Nat.le_refl _)
+        · -- app
+          split
+          · exact hinv_failUnprocessable _ e hw
+          · split
+            · exact hinv_failUnprocessable _ e hw
+            · split
+              · exact hinv_ownMessage _ e hw
+              · split
+                · exact hinv_failUnprocessable _ e hw
+                · apply hinv_storeApp
+                  exact hinv_g _ _ hw (secOK_mono (withSecret c).g _ rfl (List.prefix_refl _) hw.sec)
+                    (pendOK_of_eq (withSecret c).g _ rfl hw.pend) (Nat.le_refl _)
 
 theorem hinv_deliverOnce (retry : Cl → Option (Cl × Res)) (nx : Nat) (c : Cl) (e : Ev) (h : HInv c)
     (hretry : ∀ c1 r, HInv c1 → retry c1 = some r → HInv r.1) : HInv (deliverOnce retry nx c e).1 := by
@@ -309,11 +321,15 @@ theorem hinv_send (c : Cl) (n ts idn mid mts tok : Nat) (h : HInv c) : HInv (sen
   unfold send
   split
   · exact h
-  · apply hinv_setRec
-    have hp : (updLast (ensureSecret c.g) mid mts).path = c.g.path := by
-      unfold updLast; split <;> (try split) <;> simp
-    exact ⟨secOK_updLast _ _ _ (secOK_ensure _ h.sec), pendOK_updLast _ _ _ (pendOK_ensure _ h.pend), h.saved, h.sorted,
-      fun s hs => by simp only [hp]; exact h.below s hs⟩
+  · split
+    · exact h
+    · split
+      · exact h
+      · apply hinv_setRec
+        have hp : (updLast (ensureSecret c.g) mid mts).path = c.g.path := by
+          unfold updLast; split <;> (try split) <;> simp
+        exact ⟨secOK_updLast _ _ _ (secOK_ensure _ h.sec), pendOK_updLast _ _ _ (pendOK_ensure _ h.pend), h.saved, h.sorted,
+          fun s hs => by simp only [hp]; exact h.below s hs⟩
 
 theorem hinv_stageCommit (c : Cl) (n ts idn : Nat) (b : Body) (na : Bool) (h : HInv c) : HInv (stageCommit c n ts idn b na).1 := by
   unfold stageCommit
@@ -327,21 +343,54 @@ theorem hinv_stageCommit (c : Cl) (n ts idn : Nat) (b : Body) (na : Bool) (h : H
        subst hp
        exact ⟨_, _, rfl⟩)
 
+theorem hinv_updateData (c : Cl) (n ts idn : Nat) (u : DataUpd) (h : HInv c) : HInv (updateData c n ts idn u).1 := by
+  unfold updateData
+  repeat' split
+  all_goals first | exact h | exact hinv_stageCommit c n ts idn _ true h
+
+theorem hinv_removeMembers (c : Cl) (n ts idn : Nat) (who : List Nat) (h : HInv c) : HInv (removeMembers c n ts idn who).1 := by
+  unfold removeMembers
+  repeat' split
+  all_goals first | exact h | exact hinv_stageCommit c n ts idn _ true h
+
+theorem hinv_addMembers (c : Cl) (n ts idn : Nat) (who : List Nat) (h : HInv c) : HInv (addMembers c n ts idn who).1 := by
+  unfold addMembers
+  repeat' split
+  all_goals first | exact h | exact hinv_stageCommit c n ts idn _ true h
+
+theorem hinv_join (c : Cl) (mp : Nat) (g : GState) (e : Ev) (h : HInv c) : HInv (join c (welcomeState mp g e)) := by
+  unfold join
+  split
+  · exact h
+  · exact {
+      sec := by intro ep q hq; simp [welcomeState, joinState, syncRec, alookup] at hq
+      pend := pendOK_none _ (by simp [welcomeState, joinState])
+      saved := by intro s hs; simp at hs
+      sorted := List.Pairwise.nil
+      below := by intro s hs; simp at hs }
+
 theorem hinv_leave (c : Cl) (n ts idn : Nat) (h : HInv c) : HInv (leave c n ts idn).1 := by
   unfold leave
   split
   · exact h
-  · apply hinv_setRec
-    exact hinv_g c _ h (secOK_ensure _ h.sec) (pendOK_ensure _ h.pend) (by simp [Nat.le_refl])
+  · split
+    · exact h
+    · split
+      · exact h
+      · apply hinv_setRec
+        exact hinv_g c _ h (secOK_mono (ensureSecret c.g) _ rfl (List.prefix_refl _) (secOK_ensure _ h.sec))
+          (pendOK_of_eq (ensureSecret c.g) _ rfl (pendOK_ensure _ h.pend)) (by simp [Nat.le_refl])
 
 theorem hinv_merge (c : Cl) (h : HInv c) : HInv (merge c).1 := by
   unfold merge
   split
   · exact h
   · split
-    · exact hinv_g c _ h (secOK_syncRec _ (secOK_merge _ _ _ h.sec)) (pendOK_of_eq _ _ rfl (pendOK_merge _ _ _ h.pend))
-        (mergeCommit_secrets_path _ _ _).2.2
-    · exact hinv_g c _ h (secOK_syncRec _ h.sec) (pendOK_of_eq c.g _ rfl h.pend) (Nat.le_refl _)
+    · exact h
+    · split
+      · exact hinv_g c _ h (secOK_syncRec _ (secOK_merge _ _ _ h.sec)) (pendOK_of_eq _ _ rfl (pendOK_merge _ _ _ h.pend))
+          (mergeCommit_secrets_path _ _ _).2.2
+      · exact hinv_g c _ h (secOK_syncRec _ h.sec) (pendOK_of_eq c.g _ rfl h.pend) (Nat.le_refl _)
 
 theorem hinv_clear (c : Cl) (h : HInv c) : HInv (clear c).1 := by
   unfold clear
